@@ -1,7 +1,47 @@
 """C11 -- Every theory clause used in search is valid in the theory (partial: LA conflict explanations via their Farkas certificates, LIA branch-and-bound splits)."""
 import checks.C26 as C26, checks.C02 as C02
+H_STP = '''void harness(void) {
+  /* asserted edges 0..NE-1, the deduced edge is NE */
+  t_int pot[NVX]; for (int v = 0; v < NVX; v++) { pot[v] = nondet_int(); __CPROVER_assume(pot[v] >= -20 && pot[v] <= 20); g_outn[v] = 0; }
+  for (int k = 0; k < NE; k++) { struct Edge_SafeInt *e = &h_edge[k]; e->from.x = nondet_uchar() % NVX; e->to.x = nondet_uchar() % NVX; __CPROVER_assume(e->from.x != e->to.x);      /* an atom of difference logic relates two different variables (x - x <= c is folded to a constant) */
+    t_int c = nondet_int(); __CPROVER_assume(c >= -2 && c <= 2); e->cost.val = c;
+    e->setTime = 1 + (nondet_uchar() & 7); e->neg.x = UNDEF_E;
+    __CPROVER_assume(pot[e->to.x] - pot[e->from.x] <= c);                         /* consistent assertions: no negative cycle */
+    g_out[e->from.x][g_outn[e->from.x]].x = (t_u32)k; g_outn[e->from.x]++; }
+  struct Edge_SafeInt *d = &h_edge[E_DED]; d->from.x = nondet_uchar() % NVX; d->to.x = nondet_uchar() % NVX; __CPROVER_assume(d->from.x != d->to.x);
+  t_int dc = nondet_int(); __CPROVER_assume(dc >= -6 && dc <= 6); d->cost.val = dc; d->setTime = 1 + (nondet_uchar() & 7); d->neg.x = UNDEF_E;
+  /* the edge was deduced: some path of one or two eligible edges entails it */
+  t_uchar p1 = nondet_uchar() % NE, p2 = nondet_uchar() % NE; t_bool two = nondet_bool();
+  __CPROVER_assume(h_edge[p1].setTime <= d->setTime && h_edge[p1].from.x == d->from.x);
+  if (two) __CPROVER_assume(p2 != p1 && h_edge[p2].setTime <= d->setTime && h_edge[p1].to.x == h_edge[p2].from.x && h_edge[p2].to.x == d->to.x && h_edge[p1].cost.val + h_edge[p2].cost.val <= dc);
+  else __CPROVER_assume(h_edge[p1].to.x == d->to.x && h_edge[p1].cost.val <= dc);
+  struct STPGraphManager_SafeInt M; M.store = &h_store; M.mapper = &h_mapper; M.timestamp = 9;
+  struct EdgeRef er; er.x = E_DED; struct vec_PtAsgn out; out.data = (struct PtAsgn *)0; out.sz = 0; out.cap = 0; g_nres = 0; __osmt_thrown = 0;
+  STPGraphManager_SafeInt__findExplanation(&M, er, &out);
+  __CPROVER_assert(!__osmt_thrown, "no arithmetic overflow on these small costs");
+  __CPROVER_assert(g_nres >= 1 && g_nres <= NE, "the explanation is a non-empty list of asserted edges, each at most once");
+  /* the literals name edges that form a path from d->from to d->to (they are pushed from the target backwards) with total cost <= the deduced cost */
+  t_int total = 0; t_u32 at = d->to.x; t_bool ok = 1;
+  for (int i = 0; i < NE; i++) if (i < g_nres) { t_u32 k = g_res[i].tr.x - 100; if (k >= NE) { ok = 0; break; }
+    if (h_edge[k].to.x != at || h_edge[k].setTime > d->setTime) ok = 0; total += (t_int)h_edge[k].cost.val; at = h_edge[k].from.x; }
+  __CPROVER_assert(ok, "the explanation literals are asserted edges, none newer than the deduced edge, each ending where the next begins");
+  __CPROVER_assert(at == d->from.x, "the path starts at the source of the deduced edge");
+  __CPROVER_assert(total <= dc, "the costs along the path sum to at most the deduced cost: the explanation entails the deduced constraint");
+  OSMT_REACH("return");
+}
+'''
+
+def stp_job():
+    import os
+    from vrun import Job, VERIF
+    return Job('findExplanation.R', os.path.join(VERIF, 'shims/stp_numbers.cc'), 'opensmt::STPGraphManager<opensmt::SafeInt>::findExplanation', tier='R', header='contracts/C11/stpexpl.h', harness=H_STP, enforce=False,
+               pre_includes=('stubs/gmp_types.h', 'stubs/std_types.h', 'contracts/C11/types.h'),
+               stubs=('opensmt::STPStore<opensmt::SafeInt>::getEdge', 'opensmt::STPMapper<opensmt::SafeInt>::getAssignment', 'opensmt::STPStore<opensmt::SafeInt>::vertexNum', 'vec_PtAsgn__push__PtAsgn_R'),
+               opaque=('opensmt::STPStore<opensmt::SafeInt>', 'opensmt::STPMapper<opensmt::SafeInt>'), default_unwind=10, min_obligations=5, object_bits=12, timeout=1500, weight=20,
+               bounded_note='graphs of 3 vertices and 3 asserted edges with costs in [-2, 2], consistent (a potential function exists), the deduced edge entailed by a path of at most two edges',
+               proves='the explanation of a deduced difference constraint is a path of asserted, not newer edges from its source to its target whose costs sum to at most its cost')
 def jobs(tier):
-    return C26.jobs(tier) + C02.jobs_lia()
+    return C26.jobs(tier) + C02.jobs_lia() + [stp_job()]
 def info(tier, results):
     i = C26.info(tier, results)
     i['level'] = 'other'
